@@ -17,6 +17,7 @@ for p in props:
     fx = [f.get("commit", "?") for f in finds if f["property"] == i and f["status"] == "fixed"]
     op = [f["id"] for f in finds if f["property"] == i and f["status"] == "open"]
     seeds = []
+    mat = (json.load(open(f"{here}/seeded/matrix.json")) if os.path.exists(f"{here}/seeded/matrix.json") else {}).get(i, {})
     for m in sorted(glob.glob(f"{here}/seeded/{i}/*/meta.json")):
         mj = json.load(open(m))
         c = mj.get("confirmed_by_coordinator", {})
@@ -24,5 +25,20 @@ for p in props:
         tag = "caught" if c.get("check_exit") == 1 else "MISSED"
         if c.get("check_exit") == 1 and not rp.get("failing_input_found", False):
             tag += " (no-failing-input-found)"
-        seeds.append(f"{os.path.basename(os.path.dirname(m))}: {tag}")
+        nm = os.path.basename(os.path.dirname(m))
+        r = mat.get(nm)
+        if nm.startswith("h") and not r:
+            tag = "quiet" if c.get("check_exit") == 0 else "ALARM"
+        if r:   # latest re-run against the current checks
+            if nm.startswith("h"):
+                tag = "quiet" if r.get("check_rc") == 0 else "ALARM"
+            elif r.get("patch_applies") is False:
+                tag = "n/a on HEAD"
+            elif r.get("check_rc") == 1:
+                tag = "caught" if r.get("failing_input_found") else "caught (no-failing-input-found)"
+            elif r.get("check_rc") == 0 and r.get("demo_patched_rc") == 0:
+                tag = "neutralised"
+            else:
+                tag = "MISSED"
+        seeds.append(f"{nm}: {tag}")
     print(f"| {i} | {'yes' if i in claims else 'no'} | {th} | {', '.join(fx) or '-'} | {', '.join(op) or '-'} | {'; '.join(seeds) or '-'} |")
